@@ -6,12 +6,21 @@ from vmon.gen import blockgen as G
 PROPERTY = "C16"
 PRELOAD_NETWORK_ORDERS = [["btc", "xtn", "ltc", "bch", "grs", "doge", "dash", "btg"], ["btg", "grs", "bch", "doge", "ltc", "xtn", "btc"]]
 LEVEL = "exploration"
-TECHNIQUE = "differential runtime monitor: network.message.pack/parse vs independent per-message wire encoders, boundary-biased field values"
+TECHNIQUE = ("differential runtime monitor: network.message.pack/parse vs independent per-message wire encoders, boundary-biased field "
+             "values; plus call histories on one network with long-lived, in-place changed and shared objects and interleaved failing calls")
 RULE = ("cases: (network BTC/LTC, message name, field values) for every key of STANDARD_P2P_MESSAGES enumerated at run time; values "
         "are per declared type boundary values (u32 0/1/2^31/2^32-1, u64 to 2^64-1, 6-byte ids to 2^48-1, u8 0/255, booleans, "
         "compact-size boundaries), arrays of length 0/1/2/252/253/1000, IPv4-mapped and IPv6 addresses, ports 0/1/255/256/8333/65535, "
         "embedded transactions (with and without witness), headers, blocks, honest merkle proofs, well-formed alert payloads, "
-        "optional relay True/False/absent. Distinct by (message, reference bytes, relay presence); non-trivial when the message has fields.")
+        "optional relay True/False/absent. Distinct by (message, reference bytes, relay presence); non-trivial when the message has fields. "
+        "Histories (per shard, from the shard rng): 6-12 steps on one network (BTC or LTC) over a pool of live objects - new message "
+        "(object slots filled from the pool: the same Block/Tx/PeerAddress/InvItem object in several messages and several times in one "
+        "array), read-only calls on an object (hash/id/as_bin/as_hex/str/stream/...), in-place change then re-send (Block.set_nonce, "
+        "Block.set_txs on a header whose transactions arrive later, Tx.set_witness, TxIn.script, TxIn.sequence, TxOut.coin_value), edit of "
+        "the caller-owned argument list (pop/duplicate/reverse/clear) then re-send, pack with one invalid value at a late field or late "
+        "array element / missing keyword / unknown name followed by a valid pack (half of the time the corrected same message), parse of "
+        "cut-off bytes followed by valid calls, objects and containers returned by parse sent on (and changed), the same bytes parsed "
+        "again later. Every valid pack/parse in a history is a case, distinct by (network, message, reference bytes, preceding step class).")
 ASSUMPTIONS = [
     "reference encoders in vmon/refs/p2p.py (with txser, blockser) follow the protocol documents; self-tested on every run against "
     "hand-assembled byte strings, documented examples (address 198.27.100.9:8333, feefilter 48508, filterload b50f/11) and "
@@ -22,9 +31,18 @@ ASSUMPTIONS = [
     "`alert` payloads are well-formed alert structures (parse post-processes the payload and raises otherwise); `block` "
     "messages carry blocks whose transactions hash to the header root; transactions have >= 1 input",
     "sequence container types are not compared (a list packed may come back as a tuple)",
+    "histories: 'the fields of a message' are the values its argument objects have when pack is called; objects are changed between "
+    "calls only through what the library defines or does itself (Block.set_nonce, Block.set_txs with transactions matching the header "
+    "root, Tx.set_witness, assignment to TxIn.script / TxIn.sequence / TxOut.coin_value as Solver, SolutionChecker and tx_utils do, list "
+    "operations on lists the caller built); Block fields other than the nonce are never assigned. Calls with invalid values and "
+    "parses of damaged bytes are not judged (they may raise or not); only the valid calls after them are. Damaged bytes are "
+    "limited to cut-off / empty / trailing-garbage encodings (arbitrary bytes can carry a 2^64 array count that the parser walks)",
 ]
 EXPLANATION = ("for each value set: pack(name, **values) must equal the reference bytes; parse(name, reference bytes) must return equal "
-               "field values (InvItem, PeerAddress, Tx, Block compared field-wise). A table key without a generator aborts the run")
+               "field values (InvItem, PeerAddress, Tx, Block compared field-wise). A table key without a generator aborts the run. "
+               "In a history the same two demands hold at every valid call, against the reference encoding of the CURRENT values of the "
+               "argument objects; a failing pack is re-tried once and once with freshly built objects to name the mechanism "
+               "(wrong once = state left by an earlier call; right with fresh objects = state kept on the reused object)")
 TIMEOUT = {"quick": 600, "thorough": 3 * 3600}
 
 N_SHARDS = 16
@@ -32,7 +50,7 @@ N_SHARDS = 16
 
 def plan(tier, seed):
     sets = 6000 if tier == "quick" else 600000
-    histories = 60 if tier == "quick" else 6000
+    histories = 300 if tier == "quick" else 30000
     return [{"part": p, "parts": N_SHARDS, "sets": sets, "histories": histories, "label": "messages-%d" % p} for p in range(N_SHARDS)]
 
 
@@ -926,11 +944,14 @@ class History:
         rng, N = self.rng, self.N
         name = rng.choice(HISTORY_NAMES)
         data = P2P.encode(name, GENERATORS[name](rng, 20 + rng.randrange(1000)))
+        # only damage that keeps every array count the one of a real message: cut-off bytes, nothing, an unknown name,
+        # trailing bytes (a count read from arbitrary bytes can be 2^64 and short reads of hashes do not raise: not
+        # something this property speaks about, and not something a bounded run can wait for)
         r = rng.random()
-        if r < 0.6 and data:
+        if r < 0.7 and data:
             data = data[:rng.randrange(len(data))]
         elif r < 0.8:
-            data = G.rbytes(rng, rng.choice([0, 1, 5, 40, 90]))
+            data = b""
         elif r < 0.9:
             name = "no_such_message"
         else:
